@@ -280,7 +280,7 @@ func (c *caseCtx) runA() {
 			return // plain chunk uploads: every third in the quick tier
 		}
 		steps++
-		st := &site{r: r, w: w, Variant: "live", Phase: "after-" + label, Stage: "live", K: call.Index}
+		st := &site{r: r, w: w, Variant: "live", Phase: "after-" + label, Stage: "live", K: call.Index, lw: inst.lw, zc: &c.zc}
 		present := map[blob.Ref][]byte{}
 		for i := range acked {
 			present[w.Universe[i].Ref] = w.Universe[i].Data
@@ -328,8 +328,8 @@ func (c *caseCtx) runA() {
 		}
 	}
 	// end-of-run observations
-	st := &site{r: r, w: w, Variant: "live", Phase: "complete", Stage: "live", K: c.N}
-	_, c.zipsA = st.zipAudit(&c.zc, res.lw, c.limit)
+	st := &site{r: r, w: w, Variant: "live", Phase: "complete", Stage: "live", K: c.N, lw: res.lw, zc: &c.zc}
+	_, c.zipsA = st.zipAudit()
 	f0 := w.Files[0]
 	switch {
 	case len(f0.Content) < packThreshold:
@@ -371,6 +371,7 @@ func (c *caseCtx) runA() {
 		}
 	}
 	r.Note("upload_order", w.Spec.Order)
+	defer res.lw.release()
 	if err := c.addState(res, c.N); err != nil {
 		r.Inconclusive(fmt.Sprintf("%s: %v", w.Spec.ID, err))
 		c.failed = true
@@ -385,6 +386,9 @@ func (c *caseCtx) crashRun(k int64) {
 	rp := caseReplay(c, map[string]any{"crash_at_call": k, "call": c.logA[k], "phase": c.labels[k]})
 	if r.Guard("crash-run/"+c.labels[k], rp, func() { res, _, err = c.execute(k, nil) }) {
 		return
+	}
+	if res != nil {
+		defer res.lw.release()
 	}
 	if err != nil {
 		if strings.HasPrefix(err.Error(), "hang:") {
@@ -479,6 +483,7 @@ func (c *caseCtx) auditState(st *stateEntry, variant string, deep bool) {
 	wipe := strings.HasPrefix(variant, "zips-alone")
 	recovering := variant != "none"
 	s := &site{r: r, w: w, Variant: variant, Phase: st.Phase, Stage: "restart", K: st.ks[0]}
+	s.zc = &c.zc
 	s.extra = func() map[string]any {
 		return map[string]any{"crash_points_with_this_state": st.ks, "acked_uploads": len(st.acked), "small_blobs": len(st.sn.Small), "zips": len(st.sn.Large), "meta_rows": len(st.sn.Meta)}
 	}
@@ -488,6 +493,8 @@ func (c *caseCtx) auditState(st *stateEntry, variant string, deep bool) {
 		r.Inconclusive(fmt.Sprintf("%s: materialise: %v", w.Spec.ID, err))
 		return
 	}
+	s.lw = lw
+	defer lw.release()
 	present := map[blob.Ref][]byte{}
 	for _, i := range st.acked {
 		present[w.Universe[i].Ref] = w.Universe[i].Data
@@ -504,7 +511,7 @@ func (c *caseCtx) auditState(st *stateEntry, variant string, deep bool) {
 	}
 	r.Note("recovery", variant)
 	r.Distinct(fmt.Sprintf("%s/%d/%s", w.Spec.ID, st.ks[0], variant))
-	contained, nz := s.zipAudit(&c.zc, lw, c.limit)
+	contained, nz := s.zipAudit()
 	if nz > 0 {
 		r.Note("recovery_with_zips", variant)
 	}
@@ -598,7 +605,7 @@ func (c *caseCtx) auditState(st *stateEntry, variant string, deep bool) {
 		ck3.Receive(w.Universe[op.Blob])
 		delete(removed3, w.Universe[op.Blob].Ref)
 	}
-	s.zipAudit(&c.zc, lw, c.limit)
+	s.zipAudit()
 	s.clientAudit(ck3, rng, st.wholeRows)
 	inst.close()
 	if ck3.Dead {
@@ -612,7 +619,7 @@ func (c *caseCtx) auditState(st *stateEntry, variant string, deep bool) {
 		return
 	}
 	ck5 := s.checker(inst.s, copyPresent(ck3.Present), copySet(ck3.Uncertain), removed3)
-	s.zipAudit(&c.zc, lw, c.limit)
+	s.zipAudit()
 	s.clientAudit(ck5, rng, st.wholeRows)
 	inst.close()
 	r.Count("full_stage_walks", 1)
@@ -717,6 +724,7 @@ func run(r *ev.Run) {
 			if cs.MaxZip > 0 {
 				c.limit = cs.MaxZip
 			}
+			c.zc.limit = c.limit
 			c.runA()
 			if c.failed {
 				return
